@@ -314,6 +314,30 @@ func init() {
 					printParse(c, "number", &ref.Msg{Stream: 1, Function: 1, W: 1, Dir: "H->E", Item: n2})
 					c.Case(0, true, out)
 				}})
+			if tier == "thorough" {
+				// every F4 sign/exponent with 4096 mantissa patterns, every F8 exponent with 64: shortest-form print -> parse -> same bits
+				sp = append(sp, h.Space{Name: "f4-f8-bit-pattern-sweep-print-parse", Count: 2*256*4096 + 2*2047*64, ChunkHint: 4096,
+					Describe: func(i uint64) interface{} { return fmt.Sprintf("float pattern #%d", i) },
+					Run: func(c *h.Ctx, i uint64) {
+						var n *ref.Node
+						if i < 2*256*4096 {
+							m := uint32(i % 4096)
+							bits := uint32(i/4096/256)<<31 | uint32(i/4096%256)<<23 | m<<11 | m>>1
+							f := float64(math.Float32frombits(bits))
+							if !finite(f) {
+								c.Case(0, false, "non-finite")
+								return
+							}
+							n = ref.Floats(ref.F4, f)
+						} else {
+							j := i - 2*256*4096
+							m := uint64(j % 64)
+							bits := uint64(j/64/2047)<<63 | uint64(j/64%2047)<<52 | m<<46 | m<<20 | m
+							n = ref.Floats(ref.F8, math.Float64frombits(bits))
+						}
+						c.Case(0, true, printParse(c, "float-sweep", &ref.Msg{Stream: 1, Function: 1, W: 0, Dir: "H->E", Item: n}))
+					}})
+			}
 			// clause 2 on every accepted token soup (shares the C06 vocabulary)
 			k := 3
 			if tier == "thorough" {
